@@ -692,7 +692,9 @@ def _strip_binary(doc: dict, schema: Any) -> Any:
 def _resp_condition(doc, package, path, method, op, ep, alias, list_max, str_max, imports) -> tuple[str, str]:
     g = ParamGen(doc, package, depth_max=1, list_max=list_max, str_max=str_max)
     documented = []
-    lines: list[str] = ["    payload, text, content, kind = None, '', b'', 'undocumented'"]
+    # the body of an undocumented status is arbitrary bytes (empty, text, not valid UTF-8): it is only handed through
+    junk = g.arg("junk", "int", "0 <= $ < 3")
+    lines: list[str] = [f"    payload, text, content, kind = None, '', pick((b'', b'oops', b'caf\\xe9 \\xff\\x00'), {junk}), 'undocumented'"]
     status = g.arg("status", "int")
     codes: list[int] = []
     first = True
